@@ -31,6 +31,8 @@ def typesIn : Val → List Ty
   | .hash es => typesInE es
   | .entry k v => typesIn k ++ typesIn v
   | .sensitive v => typesIn v
+  | .deferred _ as => typesInL as
+  | .param _ t _ v _ => t :: typesIn v
   | _ => []
 def typesInL : List Val → List Ty
   | [] => []
@@ -76,12 +78,13 @@ theorem TypeKeysAgree.mono {x y x' y' : Val} (h : TypeKeysAgree x y) (hx : types
 def kind : Val → Nat
   | .undef => 0 | .dflt => 1 | .bool _ => 2 | .int _ => 3 | .float _ => 4 | .str _ => 5 | .regexp _ => 6
   | .binary _ => 7 | .array _ => 8 | .entry _ _ => 8 | .hash _ => 9 | .typ _ => 10 | .timespan _ => 11
-  | .timestamp _ _ => 12 | .sensitive _ => 13
+  | .timestamp _ _ => 12 | .uri _ => 13 | .semver _ => 14 | .vrange _ _ => 15
+  | .sensitive _ => 16 | .tname _ _ _ => 16 | .deferred _ _ => 16 | .param _ _ _ _ _ => 16
 
 def kindHead : Nat → Bytes
   | 0 => [1, 0x75] | 1 => [1, 0x64] | 2 => [1, 0x62] | 3 => [1, 0x69] | 4 => [1, 0x66] | 5 => [1, 0x73]
   | 6 => [1, 0x72] | 7 => [0, 0x42] | 8 => [0, 0x41] | 9 => [0, 0x48] | 10 => [1, 0x74] | 11 => [1, 0x44]
-  | 12 => [1, 0x54] | _ => []
+  | 12 => [1, 0x54] | 13 => [1, 0x55] | 14 => [1, 0x76] | 15 => [1, 0x52] | _ => []
 
 theorem tyKey_head (t : Ty) : ∃ r, tyKey t = 1 :: 0x74 :: r := by
   cases t <;> simp [tyKey]
@@ -93,12 +96,12 @@ theorem mk_head (x : Val) (h : cmp x = true) : ∃ r, mk x = kindHead (kind x) +
 theorem veq_kind {x y : Val} (h : kind x ≠ kind y) : veq x y = false := by
   cases x <;> cases y <;> simp [kind] at h <;> simp [veq]
 
-theorem kindHead_inj : ∀ a, a < 13 → ∀ b, b < 13 → kindHead a = kindHead b → a = b := by decide
+theorem kindHead_inj : ∀ a, a < 16 → ∀ b, b < 16 → kindHead a = kindHead b → a = b := by decide
 
-theorem kindHead_length : ∀ a, a < 13 → (kindHead a).length = 2 := by decide
+theorem kindHead_length : ∀ a, a < 16 → (kindHead a).length = 2 := by decide
 
-theorem kind_lt {x : Val} (cx : cmp x = true) : kind x < 13 := by
-  cases x <;> simp [kind]; simp [cmp] at cx
+theorem kind_lt {x : Val} (cx : cmp x = true) : kind x < 16 := by
+  cases x <;> simp [kind] <;> simp [cmp] at cx
 
 theorem mk_kind {x y : Val} (cx : cmp x = true) (cy : cmp y = true) (h : kind x ≠ kind y) : mk x ≠ mk y := by
   obtain ⟨r, hr⟩ := mk_head x cx
@@ -331,6 +334,15 @@ theorem mk_iff (hT : ∀ a b, TyWF a = true → TyWF b = true → tyKey a = tyKe
     cases y with
     | timestamp a' b' => simp [mk, mark, kb, veq, timestampKey_iff cx cy]
     | _ => exact other _ _ cx cy (by simp [kind])
+  · intro s y cx cy _
+    cases y with
+    | uri s' => simp [mk, mark, kb, veq]
+    | _ => exact other _ _ cx cy (by simp [kind])
+  · intro v y cx; simp [cmp] at cx
+  · intro o rs y cx; simp [cmp] at cx
+  · intro a n m y cx; simp [cmp] at cx
+  · intro n as _ y cx; simp [cmp] at cx
+  · intro n t hv v c _ y cx; simp [cmp] at cx
 
 /-! ### the direction that needs no hypothesis about types: equal keys ⇒ equal values -/
 
@@ -423,38 +435,14 @@ theorem mk_imp (hT : ∀ a b, TyWF a = true → TyWF b = true → tyKey a = tyKe
     exact hT t t' cx cy h
   · intro n y; exact leaf _ y rfl
   · intro a b y; exact leaf _ y rfl
+  · intro s y; exact leaf _ y rfl
+  · intro v y cx; simp [cmp] at cx
+  · intro o rs y cx; simp [cmp] at cx
+  · intro a n m y cx; simp [cmp] at cx
+  · intro n as _ y cx; simp [cmp] at cx
+  · intro n t hv v c _ y cx; simp [cmp] at cx
 
 /-! ### top level: `px.ToKey` -/
-
-theorem keyable_of_cmp : ∀ x : Val, cmp x = true → keyable x = true := by
-  have hl : ∀ vs : List Val, (∀ v ∈ vs, cmp v = true → keyable v = true) → cmpL vs = true → keyableL vs = true := by
-    intro vs
-    induction vs with
-    | nil => intros; rfl
-    | cons v vs ihl =>
-      intro ih h
-      simp only [cmpL, Bool.and_eq_true] at h
-      simp only [keyableL, Bool.and_eq_true]
-      exact ⟨ih v List.mem_cons_self h.1, ihl (fun w hw => ih w (List.mem_cons_of_mem _ hw)) h.2⟩
-  have he : ∀ es : List (Val × Val), (∀ e ∈ es, (cmp e.1 = true → keyable e.1 = true) ∧ (cmp e.2 = true → keyable e.2 = true)) →
-      cmpE es = true → keyableE es = true := by
-    intro es
-    induction es with
-    | nil => intros; rfl
-    | cons e es ihl =>
-      intro ih h
-      obtain ⟨k, v⟩ := e
-      simp only [cmpE, Bool.and_eq_true] at h
-      simp only [keyableE, Bool.and_eq_true]
-      exact ⟨⟨(ih (k, v) List.mem_cons_self).1 h.1.1, (ih (k, v) List.mem_cons_self).2 h.1.2⟩,
-        ihl (fun w hw => ih w (List.mem_cons_of_mem _ hw)) h.2⟩
-  apply Val.ind <;> try (intros; rfl)
-  · intro vs ih h; simp only [cmp] at h; simp only [keyable]; exact hl vs ih h
-  · intro es ih h; simp only [keyable]; exact he es ih (cmp_hash h).1
-  · intro k v ihk ihv h
-    simp only [cmp, Bool.and_eq_true] at h
-    simp [keyable, ihk h.1, ihv h.2]
-  · intro v _ h; simp [cmp] at h
 
 def isStr : Val → Bool
   | .str _ => true
